@@ -309,6 +309,25 @@ func Run(r *core.Run) {
 				differs(fmt.Sprintf("modify/%s/%d/%d", rq.label, li, vi), m, strings.Join(leaf.path, ".")+" changed")
 			}
 		}
+		// the delta must hash to the recorded delta hash: a recorded hash that is a truncation of the right digest
+		// (well-formed multihash of a configured algorithm, shorter digest) does not bind the delta and must be refused
+		{
+			dh := rq.m["suffixData"].(M)["deltaHash"].(string)
+			code, digest, _ := mh.Decode(dh)
+			for _, n := range []int{0, 1, len(digest) / 2, len(digest) - 1} {
+				m := clone()
+				m["suffixData"].(M)["deltaHash"] = mh.Enc(mh.Raw(code, digest[:n]))
+				text := ops.Bytes(m)
+				id := fmt.Sprintf("truncated-delta-hash/%s/%d", rq.label, n)
+				r.Case(id, func() *core.Fail {
+					if op, err := parser.Parse("did:sidetree", text); err == nil {
+						return &core.Fail{Key: id, What: fmt.Sprintf("create request whose recorded delta hash is only the first %d digest bytes accepted as %s: the delta is not bound", n, op.ID), Detail: M{"request": string(text)}}
+					}
+					return nil
+				})
+				r.Observe(string(text))
+			}
+		}
 		pl := clone()["delta"].(M)["patches"].([]any)
 		extra := ops.ParseJSON(`{"action":"add-also-known-as","uris":["https://added.example/"]}`)
 		{
